@@ -199,7 +199,7 @@ func noop() {}
 func (g *gen) goodLine(depth int) gline {
 	s := g.st
 	for {
-		switch g.rng.Intn(20) {
+		switch g.rng.Intn(24) {
 		case 0, 1: // exists
 			n := 1 + g.rng.Intn(3)
 			var a []string
@@ -278,8 +278,8 @@ func (g *gen) goodLine(depth int) gline {
 				if s.isDir(t1) || s.isDir(t2) {
 					continue
 				}
-				c1, c2 := s.files[src], s.files[src2]
-				return gline{text: "cp " + g.rel(src) + " " + g.rel(src2) + " " + g.rel(d), apply: func() { s.files[t1] = c1; s.files[t2] = c2 }, tag: "cp-dir"}
+				// one source after the other: the second is read after the first has been written
+				return gline{text: "cp " + g.rel(src) + " " + g.rel(src2) + " " + g.rel(d), apply: func() { s.files[t1] = s.files[src]; s.files[t2] = s.files[src2] }, tag: "cp-dir"}
 			}
 		case 6: // cp stdout/stderr -> file
 			which := g.pick([]string{"stdout", "stderr"})
@@ -463,7 +463,82 @@ func (g *gen) goodLine(depth int) gline {
 			if g.chance(15) {
 				inner = gline{text: g.pick([]string{"stop", "skip", "skip msg"})}
 			}
-			return gline{text: g.guard(false) + " " + inner.text, apply: noop, tag: "guard-false", custom: inner.custom}
+			pre := g.guard(false)
+			if g.chance(25) { // guards after one that does not hold are never evaluated, not even bad ones
+				pre += " " + g.pick([]string{"[bad]", "[nosuchcondition]", g.guard(true), g.guard(false), "[!bad]"})
+			}
+			if g.chance(20) { // a guard that holds first
+				pre = g.guard(true) + " " + pre
+			}
+			return gline{text: pre + " " + inner.text, apply: noop, tag: "guard-false", custom: inner.custom}
+		case 20: // cmpenv: the second file is expanded
+			fs := s.sortedFiles()
+			var pairs [][2]string
+			for _, a := range fs {
+				for _, b := range fs {
+					if a != b && s.files[a] == expandNaive(s.files[b], s.env) {
+						pairs = append(pairs, [2]string{a, b})
+					}
+				}
+			}
+			if len(pairs) == 0 {
+				continue
+			}
+			pr := pairs[g.rng.Intn(len(pairs))]
+			ta, tb := g.rel(pr[0]), g.rel(pr[1])
+			if ta == tb {
+				continue
+			}
+			return gline{text: "cmpenv " + ta + " " + tb, apply: noop, tag: "cmpenv"}
+		case 21: // a file holding what a template expands to
+			if !g.fl.customCmds {
+				continue
+			}
+			var tmpl []string
+			for _, f := range s.sortedFiles() {
+				if strings.Contains(s.files[f], "$") {
+					tmpl = append(tmpl, f)
+				}
+			}
+			if len(tmpl) == 0 {
+				continue
+			}
+			t := g.pick(tmpl)
+			want := expandNaive(s.files[t], s.env)
+			if !strings.HasSuffix(want, "\n") || strings.Count(want, "\n") != 1 || strings.ContainsAny(want, "' #") {
+				continue
+			}
+			dst := g.absent(true)
+			r := g.rel(dst)
+			if strings.Contains(r, "'") {
+				continue
+			}
+			return gline{text: "put file:" + r + " nl " + strings.TrimSuffix(want, "\n"), apply: func() { s.files[dst] = want }, tag: "put-expanded", custom: true}
+		case 22: // unquote
+			for _, f := range s.sortedFiles() {
+				c := s.files[f]
+				if strings.HasPrefix(c, ">") && strings.HasSuffix(c, "\n") && g.chance(60) {
+					f := f
+					return gline{text: "unquote " + g.rel(f), apply: func() { s.files[f] = strings.ReplaceAll("\n"+c, "\n>", "\n")[1:] }, tag: "unquote"}
+				}
+			}
+			continue
+		case 23: // mv directory
+			var ds []string
+			for _, d := range s.sortedDirs() {
+				if d != s.cd && !strings.HasPrefix(s.cd, d+"/") {
+					ds = append(ds, d)
+				}
+			}
+			if len(ds) == 0 {
+				continue
+			}
+			src := g.pick(ds)
+			dst := g.absent(true)
+			if dst == src || strings.HasPrefix(dst, src+"/") {
+				continue
+			}
+			return gline{text: "mv " + g.rel(src) + " " + g.rel(dst), apply: func() { s.renameTree(src, dst) }, tag: "mv-dir"}
 		case 19: // guards that hold in front of a good line
 			if depth > 0 {
 				continue
@@ -476,6 +551,54 @@ func (g *gen) goodLine(depth int) gline {
 			return gline{text: pre + " " + inner.text, apply: inner.apply, tag: "guard-true", custom: inner.custom}
 		}
 	}
+}
+
+// expandNaive: $NAME and ${NAME} for the variables the generator set itself; everything else it
+// never writes into file contents.
+func expandNaive(text string, env map[string]string) string {
+	var b strings.Builder
+	for i := 0; i < len(text); i++ {
+		if text[i] != '$' {
+			b.WriteByte(text[i])
+			continue
+		}
+		j := i + 1
+		brace := j < len(text) && text[j] == '{'
+		if brace {
+			j++
+		}
+		k := j
+		for k < len(text) && (text[k] == '_' || text[k] >= '0' && text[k] <= '9' || text[k] >= 'a' && text[k] <= 'z' || text[k] >= 'A' && text[k] <= 'Z') {
+			k++
+		}
+		b.WriteString(env[text[j:k]])
+		if brace {
+			k++
+		}
+		i = k - 1
+	}
+	return b.String()
+}
+
+func (s *gst) renameTree(src, dst string) {
+	mv := func(p string) string {
+		if p == src {
+			return dst
+		}
+		if strings.HasPrefix(p, src+"/") {
+			return dst + p[len(src):]
+		}
+		return p
+	}
+	nf := map[string]string{}
+	for f, c := range s.files {
+		nf[mv(f)] = c
+	}
+	nd := map[string]bool{}
+	for d := range s.dirs {
+		nd[mv(d)] = true
+	}
+	s.files, s.dirs = nf, nd
 }
 
 func joinCd(cd, p string) string {
@@ -532,7 +655,7 @@ func (g *gen) guard(holds bool) string {
 func (g *gen) badLine(depth int) gline {
 	s := g.st
 	for {
-		switch g.rng.Intn(26) {
+		switch g.rng.Intn(27) {
 		case 0:
 			return gline{text: "exists " + g.rel(g.absent(false)), tag: "bad-exists"}
 		case 1:
@@ -677,6 +800,20 @@ func (g *gen) badLine(depth int) gline {
 			return gline{text: "grep x " + g.rel(g.absent(false)), tag: "bad-grep-missing"}
 		case 24:
 			return gline{text: "stdin " + g.rel(g.absent(false)), tag: "bad-stdin-missing"}
+		case 26:
+			fs := s.sortedFiles()
+			if len(fs) < 2 {
+				continue
+			}
+			a, b := g.pick(fs), g.pick(fs)
+			if a == b || s.files[a] == expandNaive(s.files[b], s.env) {
+				continue
+			}
+			ta, tb := g.rel(a), g.rel(b)
+			if ta == tb {
+				continue
+			}
+			return gline{text: "cmpenv " + ta + " " + tb, tag: "bad-cmpenv-differ"}
 		case 25:
 			f, ok := g.someFile()
 			if !ok || strings.HasPrefix(s.files[f], ">") || s.files[f] == "" {
@@ -688,7 +825,7 @@ func (g *gen) badLine(depth int) gline {
 }
 
 var archNames = []string{"a.txt", "b.txt", "g", "d/c.txt", "d/e/f.txt", "sp ace.txt", "d2/x", "a.txt"}
-var archBodies = []string{"hello\n", "hello\n", "alpha beta\ngamma\n", "", "x\n", "one two three\ntwo\n", "two\n"}
+var archBodies = []string{"hello\n", "hello\n", "alpha beta\ngamma\n", "", "x\n", "one two three\ntwo\n", "two\n", "val=$X\n", "val=${Y}\n", ">hello\n", ">alpha beta\n>gamma\n"}
 
 func genC01(rng *rand.Rand) *tcase {
 	g := &gen{rng: rng, st: newGst()}
@@ -745,6 +882,12 @@ func genC01(rng *rand.Rand) *tcase {
 		nontrivial = true
 	}
 	run := func(i int, l gline, bad bool) {
+		switch {
+		case g.chance(15): // a trailing comment
+			l.text += g.pick([]string{" # note", " #", "\t# exists nothing"})
+		case g.chance(6): // blanks of all three kinds around the words
+			l.text = g.pick([]string{" ", "\t", "  "}) + l.text + g.pick([]string{" ", "\t", "\r", " \r"})
+		}
 		lines = append(lines, l.text)
 		if l.custom || strings.Contains(l.tag, "guard") || strings.Contains(l.tag, "neg") || bad {
 			nontrivial = true
@@ -754,6 +897,9 @@ func genC01(rng *rand.Rand) *tcase {
 		}
 		if l.apply != nil {
 			l.apply()
+		}
+		if !bad {
+			tags = append(tags, "line:"+l.tag)
 		}
 		if bad {
 			recipe = append(recipe, fmt.Sprintf("line %d fails (%s)", i, l.tag))
